@@ -185,6 +185,11 @@ func runC16MixedProgram(w *ATWorld, db *sql.DB, proxied bool, pinned bool, table
 				if e.Kind == "connect" || e.Kind == "close" || strings.EqualFold(e.Table, "columns") || strings.EqualFold(e.Table, "statistics") {
 					continue
 				}
+				if phase != 1 && strings.EqualFold(e.Table, "undo_log") {
+					// the asynchronous worker deleting the undo logs of global transactions that were committed
+					// earlier (on a connection of its own): not a statement of this program
+					continue
+				}
 				res.journals[phase] = append(res.journals[phase], fmt.Sprintf("%s|%s|%v|%s", e.Kind, strings.ReplaceAll(e.SQL, table, "{T}"), e.Args, e.Err))
 			}
 			res.coord[phase] = len(w.coord.Snapshot()) - c0
@@ -262,6 +267,9 @@ func runC16Mixed(c *Ctx) {
 					}
 				}
 				switch {
+				case xaInside && x < 8 && nPrep >= 3:
+					// (no further prepared statement to make, and executing one is the used-row business above)
+					continue
 				case x < 3 && r.Chance(15):
 					steps = append(steps, c16mStep{phase, "exec", 100 + r.Intn(3)})
 				case x < 3:
